@@ -16,12 +16,13 @@ fn calculate_view_dimensions<T>(start: Coordinate, end: Coordinate, toodee: &imp
     assert!(end.0 <= toodee.num_cols());
     assert!(end.1 <= toodee.num_rows());
     assert!(stride >= toodee.num_cols());
-    let mut num_cols = end.0 - start.0;
-    let mut num_rows = end.1 - start.1;
+    let num_cols = end.0 - start.0;
+    let num_rows = end.1 - start.1;
     // zero out dimensions for empty arrays
     if num_cols == 0 || num_rows == 0 {
-        num_cols = 0;
-        num_rows = 0;
+        // an empty view has no dimensions and refers to the empty prefix of the data,
+        // wherever the (empty) window was placed
+        return (0, 0, 0..0);
     }
     let data_start = start.1 * stride + start.0;
     let data_len = {
